@@ -5,12 +5,12 @@
      django_components.util.template_parser.parse_template              -> [parse_template]
 
    Strings are lists of code points ([str] of Lib/Base.v), positions / lengths / line numbers are [nat].
-   Definitions only - the proofs are in Lexer/Proofs.v so the model still runs when a proof breaks.
+   Definitions only - the proofs are in Lexer/{Wf,Scan,Restart,OnePass,Proofs}.v so the model still runs when a proof breaks.
 
    Django's [tag_re] is the pattern  ({%.*?%}|{{.*?}}|{#.*?#})  compiled with or without re.DOTALL
    (django_components.apps.ready() recompiles it with DOTALL when COMPONENTS.multiline_tags is on).
    It is modelled by the structural matcher [tag_at] (pattern anchored to the source's pattern string
-   in Lexer/Proofs.v, `tag_re_anchor`); the flag is the parameter [dotall] of every function.
+   in Lexer/Wf.v, `tag_re_anchor`); the flag is the parameter [dotall] of every function.
 
    Reuse (C10a): [django_lex], [parse_template], and the theorems `eq_stock_when_no_quote`,
    `eq_stock_when_quotes_closed`, `eq_stock_when_stock_close_unquoted` of Lexer/Proofs.v (restated in Props/C09.v).
@@ -34,7 +34,7 @@ Definition c_nl     : N := 10%N.    (* \n *)
 Definition is_quote (c : N) : bool := N.eqb c c_sq || N.eqb c c_dq.
 
 (* Python's str.isspace for one code point (the set str.strip() removes); anchored to CPython by
-   Gen/C09.v `py_space_chars` (see Proofs.v, `py_isspace_anchor`). *)
+   Gen/C09.v `py_space_chars` (see Wf.v, `py_isspace_anchor`). *)
 Definition py_space_chars : list N :=
   [9; 10; 11; 12; 13; 28; 29; 30; 31; 32; 133; 160; 5760; 8192; 8193; 8194; 8195; 8196; 8197; 8198; 8199;
    8200; 8201; 8202; 8232; 8233; 8239; 8287; 12288]%N.
